@@ -51,6 +51,7 @@ type Sim struct {
 	// BEFORE the block is committed: only then do TxTrace.Pre/.Post read the true per-transaction
 	// states (views fall through to the committed ledger for keys the prefix did not write).
 	BeforeCommit func(*BlockTrace)
+	nextDelta    uint32
 	forceFail    map[common.Uint256]bool // transactions that hook H3 fails after their handler ran
 }
 
@@ -276,6 +277,17 @@ func (s *Sim) buildTx(st kernel.Step) *types.Transaction {
 			m = neo3_state_manager.APPROVE_REMOVE_STATE_VALIDATOR
 		}
 		return chain.SignTx(w.NewTx(chain.Neo3State, m, chain.Args(&neo3_state_manager.ApproveStateValidatorParam{ID: uint64(abs(a(0)) % 4), Address: o.Address}), s.nextNonce()), s.signAs(st, o))
+	case "updatefee": // fee vote of a chain: [chain, voter, view offset (0 current, 1 next, 2 previous), fee]
+		o := s.named(s.Actor(a(1)))
+		view := s.committedFeeView(ChainID(a(0)))
+		switch abs(a(2)) % 3 {
+		case 1:
+			view++
+		case 2:
+			view--
+		}
+		p := &side_chain_manager.UpdateFeeParam{Address: o.Address, ChainId: ChainID(a(0)), View: view, Fee: big.NewInt(1000 + abs(a(3))%1000)}
+		return chain.SignTx(w.NewTx(chain.SideChainManager, side_chain_manager.UPDATE_FEE, chain.Args(p), s.nextNonce()), s.signAs(st, o))
 	case "quitchain":
 		o := s.named(s.User(a(1)))
 		return chain.SignTx(w.NewTx(chain.SideChainManager, side_chain_manager.QUIT_SIDE_CHAIN,
@@ -515,4 +527,17 @@ func (s *Sim) BlackList(st kernel.Step) []string {
 		}
 	}
 	return out
+}
+
+// committedFeeView reads a chain's current fee-voting round from the producer's committed state.
+func (s *Sim) committedFeeView(chainID uint64) uint64 {
+	raw, err := s.Prod().L.GetStorageItem(utils.SideChainManagerContractAddress, append([]byte(side_chain_manager.FEE), utils.GetUint64Bytes(chainID)...))
+	if err != nil || raw == nil {
+		return 0
+	}
+	f := &side_chain_manager.Fee{Fee: new(big.Int)}
+	if f.Deserialization(common.NewZeroCopySource(raw)) != nil {
+		return 0
+	}
+	return f.View
 }
